@@ -26,8 +26,9 @@ CONFIGS = {
     "C09": {"quick": ["GenG1_batch_q.cfg", "GenG1_calls2_q.cfg", "GenG1_alias_q.cfg"],
             "thorough": ["GenG1_batch_t.cfg", "GenG1_cfg_q.cfg", "GenG1_calls_q.cfg", "GenG1_calls2_q.cfg",
                          "GenG1_alias_q.cfg"]},
-    "C05": {"quick": ["GenG1_syms_q.cfg", "GenG1_cfg_q.cfg", "GenG1_align_q.cfg"],
-            "thorough": ["GenG1_syms_t.cfg", "GenG1_cfg_t.cfg", "GenG1_ann_q.cfg", "GenG1_align_q.cfg"]},
+    "C05": {"quick": ["GenG1_syms_q.cfg", "GenG1_cfg_q.cfg", "GenG1_align_q.cfg", "GenG1_shared_q.cfg"],
+            "thorough": ["GenG1_syms_t.cfg", "GenG1_cfg_t.cfg", "GenG1_ann_q.cfg", "GenG1_align_q.cfg",
+                         "GenG1_shared_q.cfg"]},
 }
 SAMPLE = {"quick": 3000, "thorough": 60000}
 RULES = {
